@@ -176,7 +176,9 @@ def _iter_rows_with_delimiter(filepath, delimiter, has_header):
                     continue
                 match = pattern.match(line)
                 if match:
-                    yield list(match.groups())
+                    # An optional group that did not take part in the match reads as an
+                    # empty cell (None would make the whole file fail on .strip())
+                    yield ['' if g is None else g for g in match.groups()]
         elif delimiter and len(delimiter) == 1:
             reader = csv.reader(f, delimiter=delimiter)
             if has_header:
